@@ -53,7 +53,7 @@ func init() {
 		Run:  runC16,
 		DefaultN: func(tier string) int {
 			if tier == "thorough" {
-				return 30000
+				return 20000
 			}
 			return 900
 		},
